@@ -230,7 +230,16 @@ func equals(t types.Type, x, y value) bool {
 	case string:
 		return x == y.(string)
 	case *value:
+		if _, ok := y.(uniqH); ok {
+			return false
+		}
 		return x == y.(*value)
+	case uniqH:
+		yh, ok := y.(uniqH)
+		if !ok {
+			return false
+		}
+		return equals(x.t, x.v, yh.v)
 	case *chanV:
 		return x == y.(*chanV)
 	case unsafePtr:
@@ -296,6 +305,8 @@ func hash(outer, t types.Type, x value) int {
 		return hashString(x)
 	case *value:
 		return int(uintptr(unsafe.Pointer(x)))
+	case uniqH:
+		return hash(outer, x.t, x.v)
 	case *chanV:
 		return int(uintptr(unsafe.Pointer(x)))
 	case unsafePtr:
